@@ -210,10 +210,43 @@ def mon_cancel_target(sc):
         if f[0] == "env" and (f[1] == "callstop" or (f[1] == "feed" and f[2] in ("err", "msgeof"))):
             stopped = True
         if f[0] == "env" and f[1] == "basectx":
-            stopped = True      # the base context of every request context has ended
+            stopped = True      # the base context of every request context has ended (or: contexts have deadlines)
         if f[0] == "o" and f[1] in ("start", "gate") and f[3] == "1":
             if not stopped and tok_id.get(f[2]) not in cancelled_ids:
                 return "context of handler %s (id %s) cancelled although nobody cancelled that id" % (f[2], tok_id.get(f[2]))
+    return None
+
+
+def mon_duplicate_rejected(sc):
+    """C07 (scripted scenarios with per-request deadlines, stepped quiescently): a request whose id is still
+    reserved - an earlier call with that id was received and has not been answered - never runs a handler."""
+    if not any(l.startswith("env\tbasectx\tdeadlines") for l in sc["lines"]):
+        return None
+    inflight = {}     # id -> token of the call holding it
+    dup_tokens = {}
+    for l in sc["lines"]:
+        f = l.split("\t")
+        if f[0] == "env" and f[1] == "feed" and f[2] in ("msg", "msgeof"):
+            seen_here = {}
+            for m in _tokens_of_feed(f):
+                if m["id"] in ("-", "6e756c6c") or m["err"] != "-":
+                    continue
+                if m["id"] in inflight or seen_here.get(m["id"]):
+                    dup_tokens[m["params"]] = m["id"]
+                    if seen_here.get(m["id"]):
+                        dup_tokens[seen_here[m["id"]]] = m["id"]
+                else:
+                    seen_here[m["id"]] = m["params"]
+            for i, t in seen_here.items():
+                if t not in dup_tokens:
+                    inflight[i] = t
+        if f[0] == "o" and f[1] == "send" and len(f) > 4:
+            for r in f[4].split(";"):
+                p = r.split(",")
+                if len(p) >= 2 and p[1] in ("R",) or (len(p) >= 3 and p[1] == "E" and p[2] != "-32600"):
+                    inflight.pop(p[0], None)
+        if f[0] == "o" and f[1] == "start" and f[2] in dup_tokens:
+            return "handler %s ran for a request whose id %s was still reserved by an unanswered call" % (f[2], dup_tokens[f[2]])
     return None
 
 
@@ -300,7 +333,7 @@ MONITORS = {
     "c02": [mon_start_once, mon_response_once, mon_faults],
     "c03": [mon_barrier, mon_faults],
     "c06": [mon_concurrency, mon_error_origin, mon_faults],
-    "c07": [mon_cancel_target, mon_error_origin, mon_faults],
+    "c07": [mon_cancel_target, mon_duplicate_rejected, mon_error_origin, mon_faults],
     "c08": [mon_wait_status, mon_faults],
     "c09": [mon_push, mon_faults],
     "c10": [mon_faults],
